@@ -8,7 +8,7 @@ for f in sorted(glob.glob(os.path.join(V, "lean/Ezc3dVerif/Properties/C*.lean"))
     pid = os.path.basename(f)[:-5]
     src = open(f).read()
     ns = re.search(r"^namespace (\S+)", src, re.M).group(1)
-    out[pid] = ["%s.%s" % (ns, m) for m in re.findall(r"^theorem ([\w.]+)", src, re.M)]
+    out[pid] = ["%s.%s" % (ns, m) for m in re.findall(r"^theorem ([\w.?!']+)", src, re.M)]
 json.dump(out, open(os.path.join(V, "lean/theorems.json"), "w"), indent=1)
 mods = []
 for sub in ("Basic", "Model", "Spec", "Proofs", "Properties"):
